@@ -367,7 +367,8 @@ func (m Manager) onUpdate(ctx context.Context, event orm.DIDChangeLog) error {
 		// should not occur
 		// we're not using the deactivated flag in the resolver metadata since there could be conflicted docs
 		log.Logger().Warnf("document (%s) is deactivated, won't update", currentDIDDocument.ID.String())
-		return nil
+		// fail the operation, otherwise the change is kept for the subject's other DID documents (and in the SQL database) but never published
+		return resolver.ErrDeactivated
 	}
 	next, err := event.DIDDocumentVersion.ToDIDDocument()
 	if err != nil {
